@@ -1,1 +1,1051 @@
-//! Generators for the distinfo monitors.
+//! Generators for the distinfo properties C10 (canonical documents, API
+//! assembled documents), C11 (interleaved well-formed / must-ignore lines,
+//! classification table, alias pairs) and C12 (file contents, corruptions).
+//!
+//! Soundness (DESIGN section 4): file names are made of bytes outside
+//! {09,0a,0b,0c,0d,20}; they are `path_plain` (so `Path` equality is byte
+//! equality) except in the alias workload; their patch/distfile kind is the
+//! same under every reading of the rule (`classify` returns `Some`); hashes
+//! are non-empty lower-case hex; sizes are plain decimal `u64`; no near-miss
+//! lines, no case variants of keywords, at most one Size line and at most one
+//! line per algorithm for a file.
+
+use crate::oracle::distinfo::{
+    classify, contains, path_plain, Alg, DocModel, FileModel, Kind, Rec, ALGS,
+};
+use crate::rng::Rng;
+
+// ---------------------------------------------------------------------------
+// Names
+// ---------------------------------------------------------------------------
+
+/// The dangerous byte sequences of DESIGN C10, with the evidence class name.
+pub const DANGER: [(&str, &[u8]); 11] = [
+    ("85", b"\x85"),
+    ("a0", b"\xa0"),
+    ("e9", b"\xe9"),
+    ("c3a0", b"\xc3\xa0"),
+    ("c385", b"\xc3\x85"),
+    ("ff", b"\xff"),
+    ("01", b"\x01"),
+    ("7f", b"\x7f"),
+    ("lparen", b"("),
+    ("rparen", b")"),
+    ("eq", b"="),
+];
+
+/// Evidence classes of a name: which dangerous sequences it contains.
+pub fn danger_classes(name: &[u8]) -> Vec<&'static str> {
+    DANGER.iter().filter(|(_, seq)| contains(name, seq)).map(|(k, _)| *k).collect()
+}
+
+const ASCII_POOL: &[u8] = b"abcdefgxyzABXYZ0123456789.-_+,@%~#:;!*[]{}<>'\"\\&|^`$?";
+
+/// A byte that may occur inside a file name: not ASCII white space, not 0x0b
+/// (classified differently by `char::is_whitespace`), not `/`.
+pub fn name_byte_ok(b: u8) -> bool {
+    !matches!(b, 0x09..=0x0d | 0x20 | b'/')
+}
+
+fn any_name_byte(r: &mut Rng, fs_safe: bool) -> u8 {
+    loop {
+        let b = r.byte();
+        if name_byte_ok(b) && !(fs_safe && b == 0) {
+            return b;
+        }
+    }
+}
+
+/// `lo..=hi` bytes weighted towards the dangerous ones; never `.` or `..`.
+pub fn raw_name(r: &mut Rng, lo: usize, hi: usize, fs_safe: bool) -> Vec<u8> {
+    let n = r.range(lo, hi);
+    let mut v = Vec::with_capacity(n + 2);
+    while v.len() < n {
+        match r.below(8) {
+            0..=3 => v.extend_from_slice(DANGER[r.below(DANGER.len())].1),
+            4 | 5 => v.push(*r.pick(ASCII_POOL)),
+            _ => v.push(any_name_byte(r, fs_safe)),
+        }
+    }
+    v.truncate(n);
+    if v == b"." || v == b".." {
+        v[0] = b'x';
+    }
+    v
+}
+
+const DIRS: [&[u8]; 8] =
+    [b"sub", b"go-mod", b"dist-1.0", b"\xc3\xa9", b"d\xe9", b"a", b"b", b"c\xa0d"];
+const DIST_SUFFIX: [&[u8]; 6] = [b".tar.gz", b".tgz", b".zip", b"-1.0.tar.xz", b".patch-1", b".c"];
+/// Distfile names that look like patches (classification table rows).
+pub const DIST_LOOKALIKES: [&[u8]; 12] = [
+    b"emul-foo",
+    b"patch-local-x",
+    b"patch-aa.orig",
+    b"patch-aa.rej",
+    b"patch-aa~",
+    b"patch-2.7.6.tar.xz",
+    b"foo.patch-1",
+    b"mypatch-aa",
+    b"pkgin-23.8.1.tar.gz",
+    b"emul-linux-patch-x.orig",
+    b"patch",
+    b"foo-patch-x",
+];
+pub const PATCH_NAMES: [&[u8]; 7] = [
+    b"patch-aa",
+    b"patch-",
+    b"emul-linux-patch-x",
+    b"patch-Makefile",
+    b"patch-src_main.c",
+    b"patch-configure.ac",
+    b"emul-netbsd32-patch-ab",
+];
+
+fn dir_component(r: &mut Rng, fs_safe: bool) -> Vec<u8> {
+    if r.chance(1, 2) {
+        r.pick(&DIRS).to_vec()
+    } else {
+        raw_name(r, 1, 5, fs_safe)
+    }
+}
+
+fn dist_intent(r: &mut Rng, subdir: bool, fs_safe: bool) -> Vec<u8> {
+    let mut base = match r.below(8) {
+        0..=3 => raw_name(r, 1, 12, fs_safe),
+        4 | 5 => {
+            let mut b = raw_name(r, 1, 6, fs_safe);
+            b.extend_from_slice(DIST_SUFFIX[r.below(DIST_SUFFIX.len())]);
+            b
+        }
+        6 => r.pick(&DIST_LOOKALIKES).to_vec(),
+        _ => {
+            let mut b = r.pick(&DIST_LOOKALIKES).to_vec();
+            b.extend_from_slice(&raw_name(r, 1, 3, fs_safe));
+            b
+        }
+    };
+    if subdir && r.chance(1, 3) {
+        let depth = r.range(1, 3);
+        let mut p = vec![];
+        for _ in 0..depth {
+            p.extend_from_slice(&dir_component(r, fs_safe));
+            p.push(b'/');
+        }
+        p.extend_from_slice(&base);
+        base = p;
+    }
+    base
+}
+
+fn patch_intent(r: &mut Rng, fs_safe: bool) -> Vec<u8> {
+    match r.below(4) {
+        0 | 1 => {
+            let mut b = b"patch-".to_vec();
+            b.extend_from_slice(&raw_name(r, 0, 8, fs_safe));
+            b
+        }
+        2 => {
+            let mut b = b"emul-".to_vec();
+            b.extend_from_slice(&raw_name(r, 1, 5, fs_safe));
+            b.extend_from_slice(b"-patch-");
+            b.extend_from_slice(&raw_name(r, 0, 5, fs_safe));
+            b
+        }
+        _ => r.pick(&PATCH_NAMES).to_vec(),
+    }
+}
+
+/// A fresh name of the requested kind: unambiguous under every reading of the
+/// classification rule, `path_plain`, and not in `used` (then added to it).
+pub fn fresh_name(
+    r: &mut Rng,
+    kind: Kind,
+    subdir: bool,
+    fs_safe: bool,
+    used: &mut Vec<Vec<u8>>,
+) -> Vec<u8> {
+    for _ in 0..64 {
+        let n = match kind {
+            Kind::Dist => dist_intent(r, subdir, fs_safe),
+            Kind::Patch => patch_intent(r, fs_safe),
+        };
+        if n.len() <= 200
+            && classify(&n) == Some(kind)
+            && path_plain(&n)
+            && !used.iter().any(|u| *u == n)
+        {
+            used.push(n.clone());
+            return n;
+        }
+    }
+    // Deterministic fallback (practically unreachable).
+    let n = match kind {
+        Kind::Dist => format!("distfile-{}.tgz", used.len()).into_bytes(),
+        Kind::Patch => format!("patch-z{}", used.len()).into_bytes(),
+    };
+    used.push(n.clone());
+    n
+}
+
+// ---------------------------------------------------------------------------
+// Hashes, sizes, RCS Ids
+// ---------------------------------------------------------------------------
+
+const HEX: &[u8; 16] = b"0123456789abcdef";
+
+/// Lower-case hex of the algorithm's length whose first 8 digits are the
+/// serial number: unique per line by construction.
+pub fn unique_hash(r: &mut Rng, alg: Alg, serial: &mut u32) -> String {
+    *serial += 1;
+    let mut s = format!("{:08x}", *serial);
+    while s.len() < alg.hexlen() {
+        s.push(HEX[r.below(16)] as char);
+    }
+    s
+}
+
+pub fn gen_size(r: &mut Rng) -> u64 {
+    match r.below(10) {
+        0 => 0,
+        1 => u64::MAX,
+        2 => (1u64 << 32).wrapping_add(r.below(5) as u64).wrapping_sub(2),
+        3 => r.next(),
+        4 => r.next() >> r.below(64),
+        5 => u64::MAX - r.below(10) as u64,
+        _ => r.below(50_000_000) as u64,
+    }
+}
+
+fn bytes_no_lf(r: &mut Rng, n: usize) -> Vec<u8> {
+    (0..n)
+        .map(|_| loop {
+            let b = r.byte();
+            if b != b'\n' {
+                return b;
+            }
+        })
+        .collect()
+}
+
+const USERS: [&[u8]; 7] =
+    [b"jperkin", b"riastradh", b"wiz", b"j\xf6rg", b"t\xe9l\xe9", b"\xc3\xa9ric", b"u\xff\xfe"];
+
+/// `$NetBSD: ` + arbitrary bytes without LF.
+pub fn expanded_rcsid(r: &mut Rng) -> Vec<u8> {
+    let mut v = b"$NetBSD: ".to_vec();
+    match r.below(4) {
+        0 | 1 => {
+            v.extend_from_slice(
+                format!(
+                    "distinfo,v 1.{} 20{:02}/{:02}/{:02} {:02}:{:02}:{:02} ",
+                    r.below(300),
+                    r.below(30),
+                    r.range(1, 12),
+                    r.range(1, 28),
+                    r.below(24),
+                    r.below(60),
+                    r.below(60)
+                )
+                .as_bytes(),
+            );
+            v.extend_from_slice(USERS[r.below(USERS.len())]);
+            v.extend_from_slice(b" Exp $");
+            if r.chance(1, 4) {
+                for _ in 0..r.range(1, 3) {
+                    v.push(*r.pick(b" \t"));
+                }
+            }
+        }
+        2 => {
+            let n = r.below(40);
+            v.extend_from_slice(&bytes_no_lf(r, n));
+        }
+        _ => {
+            let n = r.below(12);
+            v.extend_from_slice(&bytes_no_lf(r, n));
+            v.extend_from_slice(b" $");
+        }
+    }
+    v
+}
+
+fn alg_subset(r: &mut Rng, allow_empty: bool) -> Vec<Alg> {
+    let mut a = ALGS.to_vec();
+    r.shuffle(&mut a);
+    let n = if allow_empty { r.below(7) } else { r.range(1, 6) };
+    a.truncate(n);
+    a
+}
+
+// ---------------------------------------------------------------------------
+// C10 documents
+// ---------------------------------------------------------------------------
+
+/// A canonical document: RCS Id (or unexpanded), 0-5 distfiles each with a
+/// non-empty subset/order of algorithms and a size, 0-4 patches without size.
+pub fn canonical_doc(r: &mut Rng) -> DocModel {
+    let mut m = DocModel::default();
+    m.rcsid = if r.chance(1, 6) { None } else { Some(expanded_rcsid(r)) };
+    let mut used = vec![];
+    let mut serial = 0u32;
+    let nd = r.below(6);
+    let np = r.below(5);
+    for _ in 0..nd {
+        let name = fresh_name(r, Kind::Dist, true, false, &mut used);
+        let sums =
+            alg_subset(r, false).into_iter().map(|a| (a, unique_hash(r, a, &mut serial))).collect();
+        m.dist.push(FileModel { name, kind: Kind::Dist, sums, size: Some(gen_size(r)) });
+    }
+    for _ in 0..np {
+        let name = fresh_name(r, Kind::Patch, false, false, &mut used);
+        let sums =
+            alg_subset(r, false).into_iter().map(|a| (a, unique_hash(r, a, &mut serial))).collect();
+        m.patch.push(FileModel { name, kind: Kind::Patch, sums, size: None });
+    }
+    m
+}
+
+/// A document to be assembled through the API: the model (per-kind order =
+/// insertion order) and the interleaved insertion sequence.  Every entry has
+/// at least one line; patch entries have no size.
+pub fn api_doc(r: &mut Rng) -> (DocModel, Vec<FileModel>) {
+    let mut used = vec![];
+    let mut serial = 0u32;
+    let n = r.range(1, 8);
+    let mut order = vec![];
+    for _ in 0..n {
+        let kind = if r.chance(2, 5) { Kind::Patch } else { Kind::Dist };
+        let subdir = kind == Kind::Dist;
+        let name = fresh_name(r, kind, subdir, false, &mut used);
+        let (allow_empty, size) = match kind {
+            Kind::Patch => (false, None),
+            Kind::Dist => match r.below(6) {
+                0 => (false, None),
+                1 => (true, Some(gen_size(r))),
+                _ => (false, Some(gen_size(r))),
+            },
+        };
+        let sums = alg_subset(r, allow_empty)
+            .into_iter()
+            .map(|a| (a, unique_hash(r, a, &mut serial)))
+            .collect();
+        order.push(FileModel { name, kind, sums, size });
+    }
+    let mut m = DocModel::default();
+    m.rcsid = if r.chance(1, 4) { None } else { Some(expanded_rcsid(r)) };
+    for f in &order {
+        match f.kind {
+            Kind::Dist => m.dist.push(f.clone()),
+            Kind::Patch => m.patch.push(f.clone()),
+        }
+    }
+    (m, order)
+}
+
+// ---------------------------------------------------------------------------
+// C11 documents
+// ---------------------------------------------------------------------------
+
+#[derive(Clone, Copy, Debug, PartialEq, Eq)]
+pub enum LineClass {
+    WSum,
+    WSize,
+    Comment,
+    CommentedW,
+    Blank,
+    UnknownAlg,
+    BadSize,
+    GarbageFirst,
+    GarbageParen,
+    Unexpanded,
+    RcsId,
+}
+
+pub const LINE_CLASSES: [LineClass; 11] = [
+    LineClass::WSum,
+    LineClass::WSize,
+    LineClass::Comment,
+    LineClass::CommentedW,
+    LineClass::Blank,
+    LineClass::UnknownAlg,
+    LineClass::BadSize,
+    LineClass::GarbageFirst,
+    LineClass::GarbageParen,
+    LineClass::Unexpanded,
+    LineClass::RcsId,
+];
+
+impl LineClass {
+    pub fn name(self) -> &'static str {
+        match self {
+            LineClass::WSum => "W-checksum",
+            LineClass::WSize => "W-size",
+            LineClass::Comment => "I-comment",
+            LineClass::CommentedW => "I-commented-out-line",
+            LineClass::Blank => "I-blank",
+            LineClass::UnknownAlg => "I-unknown-algorithm",
+            LineClass::BadSize => "I-unparsable-size",
+            LineClass::GarbageFirst => "I-garbage-first-field",
+            LineClass::GarbageParen => "I-garbage-name-not-parenthesised",
+            LineClass::Unexpanded => "I-unexpanded-rcsid",
+            LineClass::RcsId => "N-rcsid",
+        }
+    }
+}
+
+/// One or more blanks/tabs.
+fn gap(r: &mut Rng) -> Vec<u8> {
+    match r.below(4) {
+        0 | 1 => b" ".to_vec(),
+        2 => b"\t".to_vec(),
+        _ => (0..r.range(2, 4)).map(|_| *r.pick(b" \t")).collect(),
+    }
+}
+
+/// Zero or more leading blanks/tabs.
+fn lead(r: &mut Rng) -> Vec<u8> {
+    if r.chance(3, 4) {
+        vec![]
+    } else {
+        (0..r.range(1, 4)).map(|_| *r.pick(b" \t")).collect()
+    }
+}
+
+fn fields(r: &mut Rng, fs: &[&[u8]]) -> Vec<u8> {
+    let mut l = lead(r);
+    for (i, f) in fs.iter().enumerate() {
+        if i > 0 {
+            l.extend_from_slice(&gap(r));
+        }
+        l.extend_from_slice(f);
+    }
+    l
+}
+
+fn paren(name: &[u8]) -> Vec<u8> {
+    let mut v = Vec::with_capacity(name.len() + 2);
+    v.push(b'(');
+    v.extend_from_slice(name);
+    v.push(b')');
+    v
+}
+
+/// A well-formed checksum line (without LF) with free spacing.
+pub fn w_sum_line(r: &mut Rng, alg: Alg, name: &[u8], hash: &str) -> Vec<u8> {
+    fields(r, &[alg.keyword().as_bytes(), &paren(name), b"=", hash.as_bytes()])
+}
+
+/// A well-formed size line (without LF) with free spacing.
+pub fn w_size_line(r: &mut Rng, name: &[u8], size: u64) -> Vec<u8> {
+    fields(r, &[b"Size", &paren(name), b"=", size.to_string().as_bytes(), b"bytes"])
+}
+
+const UNKNOWN_ALGS: [&[u8]; 18] = [
+    b"SHA3",
+    b"CRC32",
+    b"SHA-1",
+    b"SHA384",
+    b"SHA224",
+    b"MD4",
+    b"WHIRLPOOL",
+    b"TIGER",
+    b"BLAKE2b",
+    b"BLAKE3",
+    b"SHA3-256",
+    b"RMD128",
+    b"SHA5120",
+    b"SHA11",
+    b"XSHA1",
+    b"SHA",
+    b"MD",
+    b"BLAKE2",
+];
+const BAD_SIZES: [&[u8]; 12] = [
+    b"abc",
+    b"-1",
+    b"1.5",
+    b"18446744073709551616",
+    b"99999999999999999999999999",
+    b"1e3",
+    b"0x10",
+    b"1,000",
+    b"12abc",
+    b"1_000",
+    b"ten",
+    b"-",
+];
+const WORDS: [&[u8]; 12] = [
+    b"hello",
+    b"world",
+    b"=",
+    b"checksum",
+    b"file:",
+    b"<<<<<<<",
+    b"=======",
+    b"\xff\xfe",
+    b"SHA1\xff",
+    b"Size\xe9",
+    b"S\xc3\xa0",
+    b"--",
+];
+
+/// A must-ignore line (without LF).  `names` are names that carry (or will
+/// carry) well-formed lines in the same document, `ghost` is a name that has
+/// none: an ignored line that is wrongly honoured changes an existing entry
+/// or creates the ghost.
+pub fn ignore_line(
+    r: &mut Rng,
+    names: &[Vec<u8>],
+    ghost: &[u8],
+    serial: &mut u32,
+) -> (Vec<u8>, LineClass) {
+    let name: &[u8] = if names.is_empty() || r.chance(1, 4) { ghost } else { &names[r.below(names.len())][..] };
+    let alg = *r.pick(&ALGS);
+    match r.below(12) {
+        0 => {
+            let mut l = lead(r);
+            l.push(b'#');
+            match r.below(3) {
+                0 => {}
+                1 => l.extend_from_slice(b" a comment about (something) = else"),
+                _ => {
+                    let n = r.below(20);
+                    l.extend_from_slice(&bytes_no_lf(r, n));
+                }
+            }
+            (l, LineClass::Comment)
+        }
+        1 | 2 => {
+            let mut l = lead(r);
+            l.push(b'#');
+            if r.chance(1, 2) {
+                l.push(b' ');
+            }
+            if r.chance(1, 4) {
+                let n = gen_size(r);
+                l.extend_from_slice(&w_size_line(r, name, n));
+            } else {
+                let h = unique_hash(r, alg, serial);
+                l.extend_from_slice(&w_sum_line(r, alg, name, &h));
+            }
+            (l, LineClass::CommentedW)
+        }
+        3 => {
+            let l = match r.below(4) {
+                0 | 1 => vec![],
+                _ => (0..r.range(1, 4)).map(|_| *r.pick(b" \t")).collect(),
+            };
+            (l, LineClass::Blank)
+        }
+        4 | 5 => {
+            let h = unique_hash(r, alg, serial);
+            let a = r.pick(&UNKNOWN_ALGS);
+            (fields(r, &[a, &paren(name), b"=", h.as_bytes()]), LineClass::UnknownAlg)
+        }
+        6 | 7 => {
+            let v = r.pick(&BAD_SIZES);
+            (fields(r, &[b"Size", &paren(name), b"=", v, b"bytes"]), LineClass::BadSize)
+        }
+        8 | 9 => {
+            // first field is not a keyword (in any letter case), not a
+            // comment, not an RCS Id
+            let mut first: Vec<u8> = match r.below(3) {
+                0 => r.pick(&WORDS).to_vec(),
+                1 => paren(name),
+                _ => raw_name(r, 1, 8, false),
+            };
+            if Alg::is_keyword_any_case(&first)
+                || first.starts_with(b"#")
+                || first.starts_with(b"$NetBSD")
+            {
+                first.insert(0, b'x');
+            }
+            let h = unique_hash(r, alg, serial);
+            let word: &[u8] = WORDS[r.below(WORDS.len())];
+            let l = match r.below(3) {
+                0 => fields(r, &[&first, &paren(name), b"=", h.as_bytes()]),
+                1 => fields(r, &[&first, alg.keyword().as_bytes(), &paren(name), b"=", h.as_bytes()]),
+                _ => fields(r, &[&first, word]),
+            };
+            (l, LineClass::GarbageFirst)
+        }
+        10 => {
+            // keyword, then a second field that is not parenthesised
+            let second: Vec<u8> = match r.below(3) {
+                0 => name.to_vec(),
+                1 => {
+                    let mut v = vec![b'('];
+                    v.extend_from_slice(name);
+                    v
+                }
+                _ => {
+                    let mut v = name.to_vec();
+                    v.push(b')');
+                    v
+                }
+            };
+            if second.first() == Some(&b'(') && second.last() == Some(&b')') {
+                // would be a parenthesised field after all
+                return (vec![], LineClass::Blank);
+            }
+            let l = if r.chance(1, 4) {
+                fields(r, &[b"Size", &second, b"=", b"5", b"bytes"])
+            } else {
+                let h = unique_hash(r, alg, serial);
+                fields(r, &[alg.keyword().as_bytes(), &second, b"=", h.as_bytes()])
+            };
+            (l, LineClass::GarbageParen)
+        }
+        _ => (fields(r, &[b"$NetBSD$"]), LineClass::Unexpanded),
+    }
+}
+
+pub struct C11Doc {
+    pub text: Vec<u8>,
+    pub model: DocModel,
+    pub classes: Vec<LineClass>,
+    pub nfiles: usize,
+    /// some file's well-formed lines are separated by another file's
+    pub interleaved: bool,
+    pub ignored: usize,
+    pub high_byte_name: bool,
+}
+
+struct WLine {
+    file: usize,
+    size: Option<u64>,
+    sum: Option<(Alg, String)>,
+}
+
+/// 1-6 files; their well-formed lines interleaved arbitrarily; must-ignore
+/// lines inserted at every position.
+pub fn c11_doc(r: &mut Rng) -> C11Doc {
+    let nfiles = r.range(1, 6);
+    let mut used = vec![];
+    let mut serial = 0u32;
+    let mut names: Vec<(Vec<u8>, Kind)> = vec![];
+    for _ in 0..nfiles {
+        let kind = if r.chance(2, 5) { Kind::Patch } else { Kind::Dist };
+        let n = fresh_name(r, kind, kind == Kind::Dist, false, &mut used);
+        names.push((n, kind));
+    }
+    let ghost_kind = if r.chance(1, 3) { Kind::Patch } else { Kind::Dist };
+    let ghost = fresh_name(r, ghost_kind, false, false, &mut used);
+    let mut lines: Vec<WLine> = vec![];
+    for (i, _) in names.iter().enumerate() {
+        let with_size = r.chance(3, 5);
+        let algs = alg_subset(r, with_size);
+        let mut own: Vec<WLine> = algs
+            .into_iter()
+            .map(|a| WLine { file: i, size: None, sum: Some((a, unique_hash(r, a, &mut serial))) })
+            .collect();
+        if with_size {
+            let pos = r.below(own.len() + 1);
+            own.insert(pos, WLine { file: i, size: Some(gen_size(r)), sum: None });
+        }
+        lines.extend(own);
+    }
+    // Arbitrary interleaving: most documents fully shuffled, some grouped
+    // (files in order), some with only neighbouring swaps.
+    match r.below(4) {
+        0 => {}
+        1 => {
+            for i in 1..lines.len() {
+                if r.chance(1, 3) {
+                    lines.swap(i - 1, i);
+                }
+            }
+        }
+        _ => r.shuffle(&mut lines),
+    }
+    let mut interleaved = false;
+    for i in 0..nfiles {
+        let pos: Vec<usize> =
+            lines.iter().enumerate().filter(|(_, l)| l.file == i).map(|(k, _)| k).collect();
+        if let (Some(a), Some(b)) = (pos.first(), pos.last()) {
+            if b - a + 1 != pos.len() {
+                interleaved = true;
+            }
+        }
+    }
+    let plain_names: Vec<Vec<u8>> = names.iter().map(|(n, _)| n.clone()).collect();
+    let ignore_rate = r.range(0, 3); // 0: none, else p = rate/3 per slot (repeated)
+    let mut text = vec![];
+    let mut classes = vec![];
+    let mut model = DocModel::default();
+    let mut ignored = 0;
+    let mut rcs_done = false;
+    let mut slot = |r: &mut Rng,
+                    text: &mut Vec<u8>,
+                    classes: &mut Vec<LineClass>,
+                    serial: &mut u32,
+                    ignored: &mut usize| {
+        let mut k = 0;
+        while k < 3 && r.below(3) < ignore_rate {
+            k += 1;
+            if !rcs_done && r.chance(1, 12) {
+                rcs_done = true;
+                text.extend_from_slice(&expanded_rcsid(r));
+                text.push(b'\n');
+                classes.push(LineClass::RcsId);
+                continue;
+            }
+            let (l, c) = ignore_line(r, &plain_names, &ghost, serial);
+            text.extend_from_slice(&l);
+            text.push(b'\n');
+            classes.push(c);
+            *ignored += 1;
+        }
+    };
+    for l in &lines {
+        slot(r, &mut text, &mut classes, &mut serial, &mut ignored);
+        let (name, kind) = &names[l.file];
+        if let Some(n) = l.size {
+            text.extend_from_slice(&w_size_line(r, name, n));
+            model.apply(name, *kind, Rec::Size(n));
+            classes.push(LineClass::WSize);
+        } else if let Some((a, h)) = &l.sum {
+            text.extend_from_slice(&w_sum_line(r, *a, name, h));
+            model.apply(name, *kind, Rec::Sum(*a, h));
+            classes.push(LineClass::WSum);
+        }
+        text.push(b'\n');
+    }
+    slot(r, &mut text, &mut classes, &mut serial, &mut ignored);
+    let high_byte_name = names.iter().any(|(n, _)| n.iter().any(|&b| b >= 0x80));
+    C11Doc { text, model, classes, nfiles, interleaved, ignored, high_byte_name }
+}
+
+/// Classification table of DESIGN C11 (name, expected kind, row label).
+pub const CLASS_TABLE: [(&[u8], Kind, &str); 22] = [
+    (b"patch-aa", Kind::Patch, "patch-aa"),
+    (b"patch-", Kind::Patch, "patch-"),
+    (b"emul-linux-patch-x", Kind::Patch, "emul-linux-patch-x"),
+    (b"emul-foo", Kind::Dist, "emul-foo"),
+    (b"patch-local-x", Kind::Dist, "patch-local-x"),
+    (b"patch-aa.orig", Kind::Dist, "patch-aa.orig"),
+    (b"patch-aa.rej", Kind::Dist, "patch-aa.rej"),
+    (b"patch-aa~", Kind::Dist, "patch-aa~"),
+    (b"patch-2.7.6.tar.xz", Kind::Dist, "patch-2.7.6.tar.xz"),
+    (b"foo.patch-1", Kind::Dist, "foo.patch-1"),
+    (b"mypatch-aa", Kind::Dist, "mypatch-aa"),
+    (b"patch-local-", Kind::Dist, "patch-local-"),
+    (b"emul-linux-patch-x.orig", Kind::Dist, "emul-linux-patch-x.orig"),
+    (b"emul-linux-patch-x.rej", Kind::Dist, "emul-linux-patch-x.rej"),
+    (b"emul-linux-patch-x~", Kind::Dist, "emul-linux-patch-x~"),
+    (b"emul-linux-patch-2.tar.gz", Kind::Dist, "emul-linux-patch-2.tar.gz"),
+    (b"foo-patch-x", Kind::Dist, "foo-patch-x"),
+    (b"patch", Kind::Dist, "patch"),
+    (b"patch_aa", Kind::Dist, "patch_aa"),
+    (b"emul-linux-patchx", Kind::Dist, "emul-linux-patchx"),
+    (b"patch-aa.original", Kind::Patch, "patch-aa.original"),
+    (b"patch-localx", Kind::Patch, "patch-localx"),
+];
+
+/// A variant of a table row: 1-4 name bytes inserted at an inner position.
+/// The expectation is the oracle's; variants that are ambiguous under some
+/// reading of the rule are not produced.
+pub fn table_variant(r: &mut Rng, row: usize) -> Option<(Vec<u8>, Kind)> {
+    let mut v = CLASS_TABLE[row].0.to_vec();
+    let ins = raw_name(r, 1, 4, false);
+    let at = r.range(1, v.len() - 1);
+    let tail = v.split_off(at);
+    v.extend_from_slice(&ins);
+    v.extend_from_slice(&tail);
+    match classify(&v) {
+        Some(k) if path_plain(&v) => Some((v, k)),
+        _ => None,
+    }
+}
+
+pub struct AliasDoc {
+    pub text: Vec<u8>,
+    pub first: Vec<u8>,
+    pub second: Vec<u8>,
+    /// what the statement promises: two entries
+    pub separate: DocModel,
+    /// known finding K2: the second name's lines appended to the first's entry
+    pub merged: DocModel,
+    pub form: &'static str,
+}
+
+const ALIAS_FORMS: [&str; 6] = ["plain", "double-slash", "dot", "trailing-slash", "trailing-dot", "triple-slash"];
+
+fn alias_form(form: usize, dirs: &[Vec<u8>], base: &[u8]) -> Vec<u8> {
+    let mut v = vec![];
+    for (i, d) in dirs.iter().enumerate() {
+        v.extend_from_slice(d);
+        // the variation is applied at the last separator
+        if i + 1 == dirs.len() {
+            match form {
+                1 => v.extend_from_slice(b"//"),
+                2 => v.extend_from_slice(b"/./"),
+                5 => v.extend_from_slice(b"///"),
+                _ => v.push(b'/'),
+            }
+        } else {
+            v.push(b'/');
+        }
+    }
+    v.extend_from_slice(base);
+    match form {
+        3 => v.push(b'/'),
+        4 => v.extend_from_slice(b"/."),
+        _ => {}
+    }
+    v
+}
+
+/// The alias workload of known finding K2: two byte-distinct names that
+/// `Path` considers equal, all lines of the first before all lines of the
+/// second, other files' lines anywhere.
+pub fn alias_doc(r: &mut Rng) -> AliasDoc {
+    let mut used = vec![];
+    let mut serial = 0u32;
+    let ndirs = r.range(1, 2);
+    let dirs: Vec<Vec<u8>> = (0..ndirs)
+        .map(|_| {
+            if r.chance(1, 2) {
+                r.pick(&DIRS).to_vec()
+            } else {
+                let mut d = raw_name(r, 1, 4, false);
+                d.insert(0, b'd');
+                d
+            }
+        })
+        .collect();
+    let mut base = b"f".to_vec();
+    base.extend_from_slice(&raw_name(r, 1, 5, false));
+    base.extend_from_slice(b".tgz");
+    let fa = r.below(ALIAS_FORMS.len());
+    let mut fb = r.below(ALIAS_FORMS.len() - 1);
+    if fb >= fa {
+        fb += 1;
+    }
+    let first = alias_form(fa, &dirs, &base);
+    let second = alias_form(fb, &dirs, &base);
+    used.push(first.clone());
+    used.push(second.clone());
+    used.push(alias_form(0, &dirs, &base));
+    let form = if fa == 0 { ALIAS_FORMS[fb] } else if fb == 0 { ALIAS_FORMS[fa] } else { "both-decorated" };
+
+    // lines of the two alias names: A's first, then B's; at most one Size
+    let size_on = r.below(3); // 0: A, 1: B, 2: none
+    let mut main: Vec<(usize, WLine)> = vec![];
+    for (who, _) in [(0usize, &first), (1usize, &second)] {
+        let algs = alg_subset(r, false);
+        let n = algs.len().min(3);
+        let mut own: Vec<WLine> = algs[..n]
+            .iter()
+            .map(|a| WLine { file: who, size: None, sum: Some((*a, unique_hash(r, *a, &mut serial))) })
+            .collect();
+        if size_on == who {
+            let pos = r.below(own.len() + 1);
+            own.insert(pos, WLine { file: who, size: Some(gen_size(r)), sum: None });
+        }
+        for l in own {
+            main.push((who, l));
+        }
+    }
+    // other files
+    let nother = r.below(3);
+    let mut others: Vec<(Vec<u8>, Kind)> = vec![];
+    for _ in 0..nother {
+        let kind = if r.chance(1, 3) { Kind::Patch } else { Kind::Dist };
+        others.push((fresh_name(r, kind, false, false, &mut used), kind));
+    }
+    let mut other_lines: Vec<WLine> = vec![];
+    for (i, _) in others.iter().enumerate() {
+        for a in alg_subset(r, false).into_iter().take(2) {
+            other_lines.push(WLine { file: 2 + i, size: None, sum: Some((a, unique_hash(r, a, &mut serial))) });
+        }
+    }
+    // merge: main keeps its order, others are dropped in at random positions
+    let mut all: Vec<WLine> = main.into_iter().map(|(_, l)| l).collect();
+    for l in other_lines {
+        let pos = r.below(all.len() + 1);
+        all.insert(pos, l);
+    }
+    let mut text = vec![];
+    let mut separate = DocModel::default();
+    let mut merged = DocModel::default();
+    for l in &all {
+        let (name, kind): (&[u8], Kind) = match l.file {
+            0 => (&first, Kind::Dist),
+            1 => (&second, Kind::Dist),
+            k => (&others[k - 2].0, others[k - 2].1),
+        };
+        let merged_name: &[u8] = if l.file == 1 { &first } else { name };
+        if let Some(n) = l.size {
+            text.extend_from_slice(&w_size_line(r, name, n));
+            separate.apply(name, kind, Rec::Size(n));
+            merged.apply(merged_name, kind, Rec::Size(n));
+        } else if let Some((a, h)) = &l.sum {
+            text.extend_from_slice(&w_sum_line(r, *a, name, h));
+            separate.apply(name, kind, Rec::Sum(*a, h));
+            merged.apply(merged_name, kind, Rec::Sum(*a, h));
+        }
+        text.push(b'\n');
+    }
+    AliasDoc { text, first, second, separate, merged, form }
+}
+
+// ---------------------------------------------------------------------------
+// C12: file contents
+// ---------------------------------------------------------------------------
+
+const PATCH_LINES: [&[u8]; 14] = [
+    b"--- Makefile.orig\t2024-01-01 00:00:00.000000000 +0000",
+    b"+++ Makefile",
+    b"@@ -1,3 +1,4 @@",
+    b" context line",
+    b"+added line",
+    b"-removed line",
+    b"",
+    b" ",
+    b"\\ No newline at end of file",
+    b"binary \x00\x01\xff\xfe line",
+    b"caf\xe9 \xc3\xa0",
+    b"trailing CR\r",
+    b"Fix build on SunOS.",
+    b"+\tprintf(\"%s\\n\", s);",
+];
+pub const NETBSD_LINES: [&[u8]; 7] = [
+    b"$NetBSD: patch-aa,v 1.3 2024/05/27 23:27:10 riastradh Exp $",
+    b"$NetBSD$",
+    b"# $NetBSD: Makefile,v 1.1 2001/01/01 00:00:00 j\xf6rg Exp $",
+    b"/* $NetBSD$ */",
+    b"x$NetBSDy",
+    b"+ * $NetBSD: foo.c,v 1.2 $ and again $NetBSD$",
+    b"\t$NetBSD",
+];
+const DECOYS: [&[u8]; 8] = [
+    b"$netbsd$",
+    b"$NetBS",
+    b"NetBSD: not an id",
+    b"$ NetBSD$",
+    b"$Net BSD$",
+    b"$FreeBSD: foo $",
+    b"$NetBS$D",
+    b"NetBSD$",
+];
+
+fn text_line(r: &mut Rng) -> Vec<u8> {
+    match r.below(10) {
+        0..=5 => r.pick(&PATCH_LINES).to_vec(),
+        6 | 7 => r.pick(&DECOYS).to_vec(),
+        _ => {
+            let n = r.below(60);
+            bytes_no_lf(r, n)
+        }
+    }
+}
+
+fn join_lines(lines: &[Vec<u8>], final_lf: bool) -> Vec<u8> {
+    let mut v = vec![];
+    for (i, l) in lines.iter().enumerate() {
+        v.extend_from_slice(l);
+        if i + 1 < lines.len() || final_lf {
+            v.push(b'\n');
+        }
+    }
+    v
+}
+
+pub const CONTENT_CLASSES: [&str; 12] = [
+    "empty",
+    "one-byte",
+    "block-boundary",
+    "text",
+    "text-no-final-newline",
+    "netbsd-first",
+    "netbsd-middle",
+    "netbsd-last",
+    "netbsd-unterminated",
+    "binary",
+    "long-line",
+    "100KiB",
+];
+
+/// File content of the given class (index into `CONTENT_CLASSES`).
+pub fn content(r: &mut Rng, class: usize) -> Vec<u8> {
+    const BOUNDS: [usize; 19] =
+        [2, 54, 55, 56, 57, 63, 64, 65, 111, 112, 113, 119, 120, 127, 128, 129, 8191, 8192, 8193];
+    match class {
+        0 => vec![],
+        1 => vec![*r.pick(&[b'\n', b'a', 0u8, 0xff, b'$'])],
+        2 => {
+            let n = *r.pick(&BOUNDS);
+            r.bytes(n)
+        }
+        3 | 4 => {
+            let n = r.range(1, 12);
+            let lines: Vec<Vec<u8>> = (0..n).map(|_| text_line(r)).collect();
+            let mut v = join_lines(&lines, class == 3);
+            if class == 4 && v.ends_with(b"\n") {
+                v.push(b'x');
+            }
+            if class == 4 && v.is_empty() {
+                v.push(b'x');
+            }
+            v
+        }
+        5..=8 => {
+            let n = r.range(1, 8);
+            let mut lines: Vec<Vec<u8>> = (0..n).map(|_| text_line(r)).collect();
+            let id = r.pick(&NETBSD_LINES).to_vec();
+            match class {
+                5 => lines.insert(0, id),
+                6 => {
+                    let at = r.range(1, lines.len());
+                    lines.insert(at.min(lines.len()), id);
+                    lines.push(text_line(r));
+                    if r.chance(1, 3) {
+                        let at = r.below(lines.len());
+                        lines.insert(at, r.pick(&NETBSD_LINES).to_vec());
+                    }
+                }
+                _ => lines.push(id),
+            }
+            join_lines(&lines, class != 8)
+        }
+        9 => {
+            let n = r.range(1, 3000);
+            let mut v = r.bytes(n);
+            if r.chance(1, 2) && v.len() > 20 {
+                let at = r.below(v.len() - 8);
+                v[at..at + 7].copy_from_slice(b"$NetBSD");
+            }
+            v
+        }
+        10 => {
+            // one line longer than BufReader's 8 KiB buffer with the token
+            // straddling the buffer boundary
+            let mut v = vec![];
+            if r.chance(1, 2) {
+                v.extend_from_slice(b"first line\n");
+            }
+            let start = v.len();
+            let n = r.range(8200, 9000);
+            v.extend((0..n).map(|_| *r.pick(b"abcdefgh $NetBS")));
+            if r.chance(2, 3) {
+                let at = 8192 - r.range(0, 10);
+                if at >= start && at + 7 <= v.len() {
+                    v[at..at + 7].copy_from_slice(b"$NetBSD");
+                }
+            }
+            v.extend_from_slice(b"\nlast line\n");
+            v
+        }
+        _ => {
+            let n = 100 * 1024 + r.below(3);
+            let mut v = r.bytes(n);
+            for _ in 0..r.below(4) {
+                let at = r.below(v.len() - 8);
+                v[at..at + 7].copy_from_slice(b"$NetBSD");
+            }
+            v
+        }
+    }
+}
